@@ -8,6 +8,7 @@ import (
 	"encoding/hex"
 	"fmt"
 	"os"
+	"slices"
 	"sort"
 	"strconv"
 	"strings"
@@ -1048,6 +1049,18 @@ func cdcExecRT(ctx *cdcOpCtx, line string, a Args) string {
 				if !inner {
 					z = strconv.Itoa(min(st.layers[0].comp.compressCalls, 1))
 				}
+			}
+
+			// a record handed out by MarshalResource must stay valid: the same marshaler encodes another resource of
+			// about the same size (as the next Put of a backing store does) and the first record must not change
+			saved := slices.Clone(enc)
+			r2 := r.DeepCopy()
+			r2.Metadata().Annotations().Set("clobber", "another record")
+
+			if _, err := st.top.MarshalResource(r2); err == nil && !bytes.Equal(enc, saved) {
+				c1 = "CLOBBERED-BY-NEXT-MARSHAL"
+
+				return
 			}
 
 			st.reset()
